@@ -6,6 +6,7 @@
 #include "engines/world.h"
 #include "engines/planners.h"
 #include "engines/plan_c17.h"
+#include "engines/detrun.h"
 
 #include <ompl/base/PlannerData.h>
 #include <ompl/base/goals/GoalLazySamples.h>
@@ -723,6 +724,8 @@ public:
             if (g.chance(0.3))
                 solve(g.range(0, 500));
             plan["perturb_seed"] = (long)g.range(1, 1000000000);
+            if (g.chance(0.04))
+                plan["ompl_seed"] = 0L;  // accepted with a warning ("Using 1 instead"): must reproduce like any other seed
         }
         else if (o.prop == "C01")
         {
@@ -1782,182 +1785,23 @@ sim::CaseResult PlanSim::run(const sim::Options &o, const Json &plan)
 }
 
 // ---- C20: the same case in separately started processes under perturbations that must not matter (F9) --------------
-#include <sys/personality.h>
-#include <sys/wait.h>
-#include <unistd.h>
-
 namespace
 {
-    // one separately started run: perturb the process, run the plan in-process, print what must be reproducible
     int oneshot(const char *planFile)
     {
         g_oneshot = true;
-        ompl::msg::noOutputHandler();
-        Json plan = Json::parseFile(planFile);
-        long pad = getenv("VERIF_PERTURB_PAD") ? atol(getenv("VERIF_PERTURB_PAD")) : 0;
-        bool work = getenv("VERIF_PERTURB_WORK") && atoi(getenv("VERIF_PERTURB_WORK"));
-        // heap pre-padding: a seed-dependent number of allocations of seed-dependent sizes, kept alive
-        std::vector<void *> keepAlive;
-        sim::Rng g((uint64_t)pad * 7919 + 13);
-        for (long i = 0; i < pad; i++)
-            keepAlive.push_back(malloc((size_t)g.range(1, 5000)));
-        if (work)
-        {
-            // unrelated earlier work in the process that creates no RNG: spaces, states, a problem definition
-            for (int i = 0; i < 5; i++)
-            {
-                auto sp = std::make_shared<ob::SE3StateSpace>();
-                ob::RealVectorBounds b(3);
-                b.setLow(-1);
-                b.setHigh(1);
-                sp->setBounds(b);
-                auto si = std::make_shared<ob::SpaceInformation>(sp);
-                std::vector<ob::State *> st;
-                for (int k = 0; k < 50 + i * 13; k++)
-                    st.push_back(sp->allocState());
-                auto pd = std::make_shared<ob::ProblemDefinition>(si);
-                for (size_t k = 0; k < st.size(); k += 2)
-                    sp->freeState(st[k]);
-                if (i % 2 == 0)
-                    for (size_t k = 1; k < st.size(); k += 2)
-                        sp->freeState(st[k]);
-            }
-        }
-        PlanSim e;
-        sim::Options o;
-        o.prop = "C20";
-        sim::CaseResult r = e.run(o, plan);
-        // the i-th generator created after the run depends only on the seed and on i
-        uint64_t h = r.trace;
-        for (int i = 0; i < 3; i++)
-        {
-            ompl::RNG rng;
-            for (int k = 0; k < 16; k++)
-                h = sim::hashDouble(h, rng.uniform01());
-            h = sim::hashDouble(h, rng.gaussian01());
-        }
-        printf("ONESHOT trace=%016llx run=%016llx outcomes=%s validity=%lld paths=%lld\n", (unsigned long long)h, (unsigned long long)r.trace,
-               r.info.gets("outcomes").c_str(), (long long)r.info.geti("validity_calls"), (long long)r.info.geti("paths_judged"));
-        fflush(stdout);
-        _exit(0);
+        return detrun::oneshot(planFile, [](const Json &plan) {
+            PlanSim e;
+            sim::Options o;
+            o.prop = "C20";
+            return e.run(o, plan);
+        });
     }
 }  // namespace
 
 sim::CaseResult PlanSim::runDet(const sim::Options &o, const Json &plan)
 {
-    sim::CaseResult res;
-    std::string planner = plan.gets("planner");
-    std::string file = o.tmpDir + fmt("/c20-%d.json", (int)getpid());
-    plan.writeFile(file, -1);
-    sim::Rng g((uint64_t)plan.geti("perturb_seed", 1));
-    struct Pert
-    {
-        bool aslr;
-        long pad;
-        bool work;
-        long envBytes;
-    };
-    std::vector<Pert> perts = {{false, 0, false, 0},
-                               {true, (long)g.range(1, 900), false, (long)g.range(0, 6000)},
-                               {true, (long)g.range(1, 3000), true, (long)g.range(0, 20000)}};
-    std::vector<std::string> outs;
-    for (auto &p : perts)
-    {
-        int pfd[2];
-        if (pipe(pfd) != 0)
-        {
-            res.inconclusive = true;
-            return res;
-        }
-        pid_t c = fork();
-        if (c == 0)
-        {
-            close(pfd[0]);
-            dup2(pfd[1], 1);
-            int dn = open("/dev/null", O_WRONLY);
-            dup2(dn, 2);
-            int pers = personality(0xffffffff);
-            if (pers != -1)
-                personality(p.aslr ? (pers & ~ADDR_NO_RANDOMIZE) : (pers | ADDR_NO_RANDOMIZE));
-            setenv("VERIF_PERTURB_PAD", fmt("%ld", p.pad).c_str(), 1);
-            setenv("VERIF_PERTURB_WORK", p.work ? "1" : "0", 1);
-            if (p.envBytes > 0)
-                setenv("VERIF_PERTURB_ENV", std::string((size_t)p.envBytes, 'x').c_str(), 1);
-            setenv("VERIF_KEEP_ASLR", "1", 1);
-            execl("/proc/self/exe", "plansim", "--oneshot", file.c_str(), (char *)nullptr);
-            _exit(127);
-        }
-        close(pfd[1]);
-        std::string out;
-        char buf[4096];
-        ssize_t n;
-        while ((n = read(pfd[0], buf, sizeof buf)) > 0)
-            out.append(buf, (size_t)n);
-        close(pfd[0]);
-        int st = 0;
-        waitpid(c, &st, 0);
-        size_t p0 = out.find("ONESHOT ");
-        if (!(WIFEXITED(st) && WEXITSTATUS(st) == 0) || p0 == std::string::npos)
-        {
-            // the run itself died / was abandoned (budget): crashes are C03's business, nothing to compare here
-            res.inconclusive = true;
-            unlink(file.c_str());
-            return res;
-        }
-        outs.push_back(out.substr(p0, out.find('\n', p0) - p0));
-        res.faults[p.aslr ? "F9-aslr-on" : "F9-aslr-off"]++;
-        if (p.pad)
-            res.faults["F9-heap-pre-padding"]++;
-        if (p.work)
-            res.faults["F9-earlier-work-in-process"]++;
-        if (p.envBytes)
-            res.faults["F9-environment-size"]++;
-    }
-    unlink(file.c_str());
-    for (size_t i = 1; i < outs.size(); i++)
-        if (outs[i] != outs[0])
-            res.violate("C20.run-differs-across-processes planner=" + planner,
-                        fmt("process 0 (ASLR off, no padding): %s | process %zu (ASLR on, %ld pre-allocations%s): %s", outs[0].c_str(), i, perts[i].pad,
-                            perts[i].work ? ", earlier unrelated work" : "", outs[i].c_str()));
-    // a generator given a local seed reproduces its stream after arbitrary use
-    {
-        ompl::RNG a;
-        for (int k = 0; k < 7; k++)
-        {
-            a.uniform01();
-            a.gaussian01();
-        }
-        double q[4];
-        a.quaternion(q);
-        std::vector<double> v(3);
-        a.uniformNormalVector(v);
-        a.uniformInBall(1.0, v);
-        std::uint_fast32_t sd = (std::uint_fast32_t)g.range(1, 2000000000);
-        a.setLocalSeed(sd);
-        ompl::RNG b(sd);
-        bool same = true;
-        for (int k = 0; k < 40 && same; k++)
-        {
-            same = a.uniform01() == b.uniform01() && a.gaussian01() == b.gaussian01() && a.uniformInt(0, 1000) == b.uniformInt(0, 1000);
-            if (k % 8 == 0)
-            {
-                std::vector<double> va(4), vb(4);
-                a.uniformNormalVector(va);
-                b.uniformNormalVector(vb);
-                same = same && va == vb;
-            }
-        }
-        if (!same)
-            res.violate("C20.reseeded-generator-stream-differs", fmt("RNG::setLocalSeed(%u) after use does not reproduce the stream of RNG(%u)", (unsigned)sd, (unsigned)sd));
-    }
-    res.trace = sim::fnv1a(outs[0]);
-    res.nontrivial = outs[0].find("validity=0 ") == std::string::npos;  // the planner really ran in all three processes
-    res.sig = planner + "/" + plan["world"].gets("space") + "/" + outs[0].substr(outs[0].find("outcomes="), 40);
-    Json info = Json::object();
-    info["processes"] = Json((long)outs.size());
-    info["first"] = outs[0];
-    res.info = info;
-    return res;
+    return detrun::runDet(o, plan, "plansim", plan.gets("planner") + "/" + plan["world"].gets("space") + "/");
 }
 
 int main(int argc, char **argv)
